@@ -1,16 +1,17 @@
 #!/bin/bash
 # Applies every seeded change (seeded/<id>/patch.diff) to /repo in turn, runs the quick check of its property and records the verdict.
 # usage: tools/regress_seeds.sh [id...]   -> seeded/DETECTION.md   (nothing else may run checks meanwhile: they rebuild from /repo)
-cd /verif
+cd "$(dirname "$0")/.." || exit 2
+V="$(pwd)"
 ids="$@"; [ -z "$ids" ] && ids=$(ls seeded | grep -E '^C[0-9]{2}[a-z]?$')
 out=seeded/DETECTION.md
 { echo "# Seeded changes against the quick checks ($(git rev-parse --short HEAD))"; echo; echo "| mutant | property | verdict of ./check <property> --tier quick |"; echo "|---|---|---|"; } > $out
 for id in $ids; do
   p=${id:0:3}
-  r=$(tools/try_seed.sh /verif/seeded/$id/patch.diff $p 2>&1 | grep -v "^exit\|KNOWN-FINDING")
+  r=$(tools/try_seed.sh "$V"/seeded/$id/patch.diff $p 2>&1 | grep -v "^exit\|KNOWN-FINDING")
   v=$(echo "$r" | grep VIOLATION | head -1)
   s=$(echo "$r" | grep "$p quick:" | tail -1 | sed 's/.*obligations/obligations/')
   if [ -z "$v" ]; then verdict="**not reported** ($s)"; elif echo "$v" | grep -q no-failing-input-found; then verdict="VIOLATION no-failing-input-found ($s)"; else verdict="VIOLATION with a failing input ($s)"; fi
   echo "| $id | $p | $verdict |" >> $out
 done
-git -C /repo status --short | head -3
+git -C "${VERIF_REPO:-/repo}" status --short 2>/dev/null | head -3
